@@ -1035,6 +1035,10 @@ func (c10) Run(t *tape.Tape, cfg sim.Config) (res sim.Result) {
 		res.Fail("panic-instead-of-error", "%s", panics[0])
 		return
 	}
+	if len(s.Unguarded) > 0 {
+		res.Fail("unguarded-shared-state", "with %d clients running, a task touched state documented as guarded by a mutex while nobody held that mutex: %v", nclients, s.Unguarded)
+		return
+	}
 	if len(stillRegisteredAtNotify) > 0 {
 		res.Fail("notified-before-name-released", "the close notification of module %q ran (from its own Close call) while the name still resolved to the closed module", stillRegisteredAtNotify[0])
 		return
